@@ -8,6 +8,7 @@ from ..fold import Scope, dotted, src
 from .common import (attr_stores, ctx, ff_for, find_calls, must_pass, node_calls, own_nodes, path_text, resolve_callee)
 
 NET = "canopen/network.py"
+NMT = "canopen/nmt.py"
 HANDLES = [
     # (module, class, handle attribute, start method, stop method, reason)
     ("canopen/sync.py", "SyncProducer", "_task", "start", "stop"),
@@ -176,68 +177,7 @@ def run(chk):
               f"{NET}:Network.send_periodic | task arguments", snp.loc(), f"{[src(a) for a in rets[0].args] if rets else '?'}")
 
     # ------------------------------------------------------------------ R3 state => payload
-    NMT = "canopen/nmt.py"
-    slave = repo.cls(NMT, "NmtSlave", "C17.R3")
-    base = repo.cls(NMT, "NmtBase", "C17.R3")
-    for mname, m in base.methods.items():
-        if "self._state" in writes.of(m) and mname != "__init__":
-            over = slave.methods.get(mname)
-            if over is None:
-                # reaches a slave override through dynamic dispatch?
-                calls = {dotted(c.func) for c in ast.walk(m.node) if isinstance(c, ast.Call)}
-                via = [c for c in calls if c and c.startswith("self.") and c[5:] in slave.methods and "self._state" in writes.of(slave.methods[c[5:]])]
-                direct = attr_stores(m.node, "_state")
-                chk.check(bool(via) and not direct, "R3", f"{NMT}:NmtBase.{mname} | state change reaches the heartbeat", m.loc(),
-                          "NmtBase method changes _state and NmtSlave does not override it: the heartbeat payload goes stale")
-    upd_names = ("self.update_heartbeat", "self.start_heartbeat")
-    for mname, m in slave.methods.items():
-        if mname in ("__init__",) or "self._state" not in writes.of(m):
-            continue
-        fm = ff_for(chk, m, "C17.R3")
-        changers = []
-        for n in fm.cfg.nodes:
-            if n.kind != "stmt":
-                continue
-            if isinstance(n.ast, (ast.Assign, ast.AugAssign)) and any(dotted(t) == "self._state" for t in getattr(n.ast, "targets", [getattr(n.ast, "target", None)]) if t is not None):
-                changers.append(n)
-            for c in [x for x in ast.walk(n.ast) if isinstance(x, ast.Call)]:
-                callee = resolve_callee(repo, m, c)
-                if callee is not None and callee is not m and "self._state" in writes.of(callee) and (dotted(c.func) or "") not in upd_names:
-                    changers.append(n)
-        chk.floor("R3", len(changers), 1, f"state-changing statements in NmtSlave.{mname}")
-        for n in changers:
-            wit = must_pass(fm.cfg, lambda x: any(node_calls(x, u) for u in upd_names), from_node=n)
-            chk.check(wit is None, "R3", f"{NMT}:NmtSlave.{mname} | heartbeat updated after state change", m.loc(n.ast),
-                      f"after `{src(n.ast)[:50]}` a path returns without update_heartbeat()/start_heartbeat(): {path_text(wit) if wit else ''}")
-    # the heartbeat starts on the boot-up transition INITIALISING -> PRE-OPERATIONAL with the time of object 0x1017
-    sc_ = repo.func(NMT, "NmtSlave.send_command", "C17.R3")
-    fsc_ = ff_for(chk, sc_, "C17.R3")
-    starts = [c for c in find_calls(sc_.node, "self.start_heartbeat")]
-    chk.floor("R3", len(starts), 1, "start_heartbeat in NmtSlave.send_command")
-    for c in starts:
-        st = fsc_.stmt_of(c)
-        g = sorted((fsc_.norm(e, subst=False), p) for e, p in fsc_.facts_at(st) if "_state" in src(e))
-        chk.check(g == [("old_state == 0", True), ("self._state == 127", True)], "R3", f"{NMT}:NmtSlave.send_command | heartbeat starts on INITIALISING -> PRE-OPERATIONAL", sc_.loc(c),
-                  f"start_heartbeat() under {g}")
-        od_ = fsc_.raw_def_at("old_state", st)
-        chk.check(od_ is not None and src(od_) == "self._state", "R3", f"{NMT}:NmtSlave.send_command | previous state remembered", sc_.loc(c), f"old_state = {src(od_) if od_ is not None else '?'}")
-        dn = [n for n in fsc_.cfg.nodes if n.kind == "stmt" and isinstance(n.ast, ast.Assign) and src(n.ast.targets[0]) == "old_state"]
-        sup = [n for n in fsc_.cfg.nodes if n.kind == "stmt" and "send_command(code)" in src(n.ast) and "super" in src(n.ast)]
-        chk.check(bool(dn) and bool(sup) and all(fsc_.cfg.dominates(d, s_) for d in dn for s_ in sup), "R3", f"{NMT}:NmtSlave.send_command | previous state taken before the command is applied", sc_.loc(c), "")
-        a0 = c.args[0] if c.args else None
-        d0 = fsc_.raw_def_at(a0.id, st) if isinstance(a0, ast.Name) else a0
-        v0 = folder.try_fold(d0.value.slice, Scope(sc_.mod), None) if d0 is not None and isinstance(d0, ast.Attribute) and isinstance(d0.value, ast.Subscript) else None
-        chk.check(d0 is not None and isinstance(d0, ast.Attribute) and d0.attr == "raw" and src(d0.value.value) == "self._local_node.sdo" and v0 == 0x1017, "R3",
-                  f"{NMT}:NmtSlave.send_command | period taken from the heartbeat time object 0x1017", sc_.loc(c), f"{src(d0) if d0 is not None else '?'}")
-    uh = repo.func(NMT, "NmtSlave.update_heartbeat", "C17.R3")
-    fu = ff_for(chk, uh, "C17.R3")
-    ups = [c for c in find_calls(uh.node, ".update") if dotted(c.func) == "self._send_task.update"]
-    chk.check(len(ups) == 1 and [src(a) for a in ups[0].args] == ["[self._state]"], "R3", f"{NMT}:NmtSlave.update_heartbeat | payload", uh.loc(),
-              f"task updated with {[src(a) for a in ups[0].args] if ups else 'nothing'}; expected [self._state]")
-    wit = must_pass(fu.cfg, lambda n: node_calls(n, "_send_task.update"),
-                    skip_edge=lambda n, lab: n.kind == "test" and ((src(n.ast) in ("self._send_task is not None", "self._send_task") and lab == "F")
-                                                                   or (src(n.ast) in ("self._send_task is None", "not self._send_task") and lab == "T")))
-    chk.check(wit is None, "R3", f"{NMT}:NmtSlave.update_heartbeat | updates whenever a task is live", uh.loc(), f"{path_text(wit) if wit else ''}")
+    heartbeat_follows_state(chk, "R3")
 
     PB = "canopen/pdo/base.py"
     sd = repo.func(PB, "PdoVariable.set_data", "C17.R3")
@@ -355,3 +295,72 @@ def run(chk):
     # ------------------------------------------------------------------ R8 instances are independent (shared clause)
     from . import shared as _shared
     _shared.isolation(chk, "R8", rels=['canopen/network.py', 'canopen/nmt.py', 'canopen/sync.py', 'canopen/pdo/base.py'])
+
+
+def heartbeat_follows_state(chk, rule: str):
+    """Every change of the NMT slave's state reaches the heartbeat producer (payload [state]); the heartbeat starts on the
+    boot-up transition.  Shared with C11: the state a master reports is the one the slave's heartbeat carries."""
+    repo, folder = ctx(chk)
+    writes = AttrWrites(repo)
+    NMT = "canopen/nmt.py"
+    slave = repo.cls(NMT, "NmtSlave", f"{chk.prop}.{rule}")
+    base = repo.cls(NMT, "NmtBase", f"{chk.prop}.{rule}")
+    for mname, m in base.methods.items():
+        if "self._state" in writes.of(m) and mname != "__init__":
+            over = slave.methods.get(mname)
+            if over is None:
+                # reaches a slave override through dynamic dispatch?
+                calls = {dotted(c.func) for c in ast.walk(m.node) if isinstance(c, ast.Call)}
+                via = [c for c in calls if c and c.startswith("self.") and c[5:] in slave.methods and "self._state" in writes.of(slave.methods[c[5:]])]
+                direct = attr_stores(m.node, "_state")
+                chk.check(bool(via) and not direct, rule, f"{NMT}:NmtBase.{mname} | state change reaches the heartbeat", m.loc(),
+                          "NmtBase method changes _state and NmtSlave does not override it: the heartbeat payload goes stale")
+    upd_names = ("self.update_heartbeat", "self.start_heartbeat")
+    for mname, m in slave.methods.items():
+        if mname in ("__init__",) or "self._state" not in writes.of(m):
+            continue
+        fm = ff_for(chk, m, f"{chk.prop}.{rule}")
+        changers = []
+        for n in fm.cfg.nodes:
+            if n.kind != "stmt":
+                continue
+            if isinstance(n.ast, (ast.Assign, ast.AugAssign)) and any(dotted(t) == "self._state" for t in getattr(n.ast, "targets", [getattr(n.ast, "target", None)]) if t is not None):
+                changers.append(n)
+            for c in [x for x in ast.walk(n.ast) if isinstance(x, ast.Call)]:
+                callee = resolve_callee(repo, m, c)
+                if callee is not None and callee is not m and "self._state" in writes.of(callee) and (dotted(c.func) or "") not in upd_names:
+                    changers.append(n)
+        chk.floor(rule, len(changers), 1, f"state-changing statements in NmtSlave.{mname}")
+        for n in changers:
+            wit = must_pass(fm.cfg, lambda x: any(node_calls(x, u) for u in upd_names), from_node=n)
+            chk.check(wit is None, rule, f"{NMT}:NmtSlave.{mname} | heartbeat updated after state change", m.loc(n.ast),
+                      f"after `{src(n.ast)[:50]}` a path returns without update_heartbeat()/start_heartbeat(): {path_text(wit) if wit else ''}")
+    # the heartbeat starts on the boot-up transition INITIALISING -> PRE-OPERATIONAL with the time of object 0x1017
+    sc_ = repo.func(NMT, "NmtSlave.send_command", f"{chk.prop}.{rule}")
+    fsc_ = ff_for(chk, sc_, f"{chk.prop}.{rule}")
+    starts = [c for c in find_calls(sc_.node, "self.start_heartbeat")]
+    chk.floor(rule, len(starts), 1, "start_heartbeat in NmtSlave.send_command")
+    for c in starts:
+        st = fsc_.stmt_of(c)
+        g = sorted((fsc_.norm(e, subst=False), p) for e, p in fsc_.facts_at(st) if "_state" in src(e))
+        chk.check(g == [("old_state == 0", True), ("self._state == 127", True)], rule, f"{NMT}:NmtSlave.send_command | heartbeat starts on INITIALISING -> PRE-OPERATIONAL", sc_.loc(c),
+                  f"start_heartbeat() under {g}")
+        od_ = fsc_.raw_def_at("old_state", st)
+        chk.check(od_ is not None and src(od_) == "self._state", rule, f"{NMT}:NmtSlave.send_command | previous state remembered", sc_.loc(c), f"old_state = {src(od_) if od_ is not None else '?'}")
+        dn = [n for n in fsc_.cfg.nodes if n.kind == "stmt" and isinstance(n.ast, ast.Assign) and src(n.ast.targets[0]) == "old_state"]
+        sup = [n for n in fsc_.cfg.nodes if n.kind == "stmt" and "send_command(code)" in src(n.ast) and "super" in src(n.ast)]
+        chk.check(bool(dn) and bool(sup) and all(fsc_.cfg.dominates(d, s_) for d in dn for s_ in sup), rule, f"{NMT}:NmtSlave.send_command | previous state taken before the command is applied", sc_.loc(c), "")
+        a0 = c.args[0] if c.args else None
+        d0 = fsc_.raw_def_at(a0.id, st) if isinstance(a0, ast.Name) else a0
+        v0 = folder.try_fold(d0.value.slice, Scope(sc_.mod), None) if d0 is not None and isinstance(d0, ast.Attribute) and isinstance(d0.value, ast.Subscript) else None
+        chk.check(d0 is not None and isinstance(d0, ast.Attribute) and d0.attr == "raw" and src(d0.value.value) == "self._local_node.sdo" and v0 == 0x1017, rule,
+                  f"{NMT}:NmtSlave.send_command | period taken from the heartbeat time object 0x1017", sc_.loc(c), f"{src(d0) if d0 is not None else '?'}")
+    uh = repo.func(NMT, "NmtSlave.update_heartbeat", f"{chk.prop}.{rule}")
+    fu = ff_for(chk, uh, f"{chk.prop}.{rule}")
+    ups = [c for c in find_calls(uh.node, ".update") if dotted(c.func) == "self._send_task.update"]
+    chk.check(len(ups) == 1 and [src(a) for a in ups[0].args] == ["[self._state]"], rule, f"{NMT}:NmtSlave.update_heartbeat | payload", uh.loc(),
+              f"task updated with {[src(a) for a in ups[0].args] if ups else 'nothing'}; expected [self._state]")
+    wit = must_pass(fu.cfg, lambda n: node_calls(n, "_send_task.update"),
+                    skip_edge=lambda n, lab: n.kind == "test" and ((src(n.ast) in ("self._send_task is not None", "self._send_task") and lab == "F")
+                                                                   or (src(n.ast) in ("self._send_task is None", "not self._send_task") and lab == "T")))
+    chk.check(wit is None, rule, f"{NMT}:NmtSlave.update_heartbeat | updates whenever a task is live", uh.loc(), f"{path_text(wit) if wit else ''}")
